@@ -37,6 +37,15 @@ func (r *Run) RunBatches(o BatchOpts) {
 		r.Inconclusive("cannot find own executable: " + err.Error())
 		return
 	}
+	if o.Race {
+		// race engines run their children from the race-instrumented binary
+		if rexe := filepath.Join(filepath.Dir(exe), "check.race"); fileExists(rexe) {
+			exe = rexe
+		} else {
+			r.Inconclusive("race-instrumented binary " + rexe + " is missing")
+			return
+		}
+	}
 	if o.Parallel <= 0 {
 		o.Parallel = 16
 	}
@@ -152,6 +161,11 @@ func (r *Run) runChild(exe, scratch string, b int, o BatchOpts) {
 			"batch": b, "last_logged_case": lc, "exit": fmt.Sprint(werr), "output_head": stack,
 		})
 	}
+}
+
+func fileExists(p string) bool {
+	_, err := os.Stat(p)
+	return err == nil
 }
 
 func tailFile(path string, n int) string {
